@@ -139,6 +139,15 @@ class Env(dict):
             return _forall(*a)
 
         self["forall"] = forall
+
+        def exists(*a):
+            if len(a) == 1:
+                if self.universe is None:
+                    raise TypeError("unbounded exists needs a universe")
+                return _exists(list(self.universe), a[0])
+            return _exists(*a)
+
+        self["exists"] = exists
         for name, src in contract.spec.items():
             if spec_from is not None:
                 # spec functions are closed over the PRE-state (as the prover's
